@@ -321,6 +321,46 @@ fn random_universe(out: &mut Out, r: &mut Rng, thorough: bool) {
     }
 }
 
+/// The ends of the documented parameter ranges (contexts whose dump would be far too long for a case line), decided inside the harness:
+/// 64 coefficient primes accepted with a strictly decreasing chain ending at 0 / 65 refused with the size error; degree 2^17 accepted /
+/// 2^18 refused with the degree error; a 60-bit prime accepted / a 61-bit prime = 1 mod 2N refused with the bit-count error.
+fn range_ends(out: &mut Out) {
+    let err = |p: EncryptionParameters| -> (bool, String, usize, bool) {
+        let c = HeContext::new(p, true, SecurityLevel::None);
+        let k = c.key_context_data().unwrap();
+        let mut idx = vec![]; let mut cur = Some(k.clone());
+        while let Some(d) = cur { idx.push(d.chain_index()); cur = d.next_context_data(); }
+        let dec = idx.windows(2).all(|w| w[0] == w[1] + 1) && idx.last() == Some(&0);
+        (c.parameters_set(), format!("{:?}", k.qualifiers().parameter_error), idx.len(), dec) };
+    let primes = |n: usize, bits: &[usize]| -> Vec<Modulus> { let mut v: Vec<Modulus> = vec![]; let mut sizes = bits.to_vec(); sizes.sort(); sizes.dedup();
+        for b in sizes { let need = bits.iter().filter(|&&x| x == b).count(); v.extend(hu::get_primes(2 * n as u64, b, need)); } v };
+    let mut cases: Vec<(String, Box<dyn Fn() -> EncryptionParameters>, bool, &str, usize)> = vec![];
+    let b64: Vec<usize> = (0..64).map(|i| [24usize, 30, 36, 42, 48, 54, 58, 60][i / 8]).collect();
+    let mut b65 = b64.clone(); b65.push(20);
+    for scheme in [SchemeType::BFV, SchemeType::CKKS, SchemeType::BGV] {
+        let mk = move |n: usize, q: Vec<Modulus>| { let p = EncryptionParameters::new(scheme).set_poly_modulus_degree(n).set_coeff_modulus(&q); if scheme != SchemeType::CKKS { p.set_plain_modulus_u64(97) } else { p } };
+        let (q64, q65) = (primes(16, &b64), primes(16, &b65));
+        cases.push((format!("{:?} 64-primes", scheme), Box::new(move || mk(16, q64.clone())), true, "Success", 64));
+        cases.push((format!("{:?} 65-primes", scheme), Box::new(move || mk(16, q65.clone())), false, "InvalidCoeffModulusSize", 1));
+        let (qa, qb) = (primes(1 << 17, &[50, 60]), primes(1 << 18, &[50, 60]));
+        cases.push((format!("{:?} degree-2^17", scheme), Box::new(move || mk(1 << 17, qa.clone())), true, "Success", 2));
+        cases.push((format!("{:?} degree-2^18", scheme), Box::new(move || mk(1 << 18, qb.clone())), false, "InvalidPolyModulusDegree", 1));
+        let (q60, q61) = (primes(16, &[60, 40]), primes(16, &[61, 40]));
+        cases.push((format!("{:?} 60-bit-prime", scheme), Box::new(move || mk(16, q60.clone())), true, "Success", 2));
+        cases.push((format!("{:?} 61-bit-prime", scheme), Box::new(move || mk(16, q61.clone())), false, "InvalidCoeffModulusBitCount", 1));
+    }
+    for (name, f, want_ok, want_err, want_len) in cases {
+        match std::panic::catch_unwind(std::panic::AssertUnwindSafe(|| err(f()))) {
+            Ok((ok, e, len, dec)) => {
+                if ok == want_ok && e == want_err && (!ok || (len == want_len && dec)) { out.raw(&format!("!OK ctx_range_end {} {} # range-end", name, e)); }
+                else { out.raw(&format!("!FAIL ctx_range_end {} :: parameters_set={} error={} chain length {} (strictly decreasing to 0: {}); expected parameters_set={} error={} length {} # range-end", name, ok, e, len, dec, want_ok, want_err, want_len)); } }
+            // more than HE_COEFF_MOD_COUNT_MAX primes never reach a context: the parameter setter itself refuses them (as in SEAL) — also a refusal
+            Err(_) if name.ends_with("65-primes") && LAST_PANIC.with(|p| p.borrow().contains("[Invalid argument] Coeff modulus is invalid")) => out.raw(&format!("!OK ctx_range_end {} refused-by-set_coeff_modulus # range-end", name)),
+            Err(_) => out.raw(&format!("!FAIL ctx_range_end {} :: context creation panicked instead of reporting an error # range-end", name)),
+        }
+    }
+}
+
 pub fn run(out: &mut Out, thorough: bool, seed: u64, extra: &[String]) {
     let mut r = Rng::new(seed);
     if extra.len() >= 2 && extra[0] == "--case" {
@@ -335,7 +375,7 @@ pub fn run(out: &mut Out, thorough: bool, seed: u64, extra: &[String]) {
         return;
     }
     let part = extra.get(0).map(|s| s.as_str()).unwrap_or("all");
-    if part == "all" || part == "gen" { generators(out, &mut r, thorough); }
+    if part == "all" || part == "gen" { generators(out, &mut r, thorough); range_ends(out); }
     if part == "all" || part == "ladder" { ladder_universe(out, thorough); }
     if part == "all" || part == "chain" { flags_universe(out, thorough); security_universe(out, thorough); }
     if part == "all" || part == "random" { random_universe(out, &mut r, thorough); }
